@@ -28,6 +28,10 @@ def run(P, R, L):
     K.own11_table_cache_key(P, R, L)
     K.bundle_filter(P, R, L)
     K.agr2_codec_pairs(P, R, L, groups=("table",))
+    R.clause("GRD-27", "an index separator is strictly below the first key of the next block")
+    K.grd27_separator_strictly_below_next_key(P, R, L)
+    R.clause("ORD-20", "a data block is finalized only after it was found non-empty")
+    K.ord20_empty_block_tested_before_finalize(P, R, L)
     R.clause("GRD-18", "table and log files are written with write_all (the builders account offsets by the intended length); reads are exact or count-checked")
     K.grd18_short_reads(P, R, L)
     R.not_decided += ["prefix compression, separators, seek positions, iteration order (computed bytes)"]
